@@ -92,7 +92,7 @@ def worker(args):
                               'UnresolvableCyclicDependency although the created objects do not reference each other in a cycle: %s' % msg[:200])
     ops_ = ex.ops + [r for r in env.shaping_reads() if r[0] in ('r_citer', 'r_attr')]
     ex.ops = ops_
-    ex.run(3 if tier != 'quick' and sx.deep_model(name) else 2, visit, order=sx.seeded_order(seed), last_only=lambda op: op[0] in FLUSHES)
+    ex.run(3 if tier != 'quick' and sx.deep_model(name, fixture) else 2, visit, order=sx.seeded_order(seed), last_only=lambda op: op[0] in FLUSHES)
     env.close()
     for s in ex.samples: sub.sample(s)
     return dict(sub=sub.dump(), states=ex.states, transitions=ex.transitions, executions=ex.executions)
@@ -102,7 +102,7 @@ def run(ctx):
     ctx.guard('flush transitions', ctx.counters.get('flush_transitions', 0), 5000)
     ctx.guard('successful flushes with pending writes', ctx.counters.get('flush_ok', 0), 1000)
     ctx.cov['per_model'] = agg['per_model']
-    ctx.cov['bounds'] = 'every flush/commit/end at the end of every history of 2 (thorough: 3 for one model per relationship kind plus casc3 and mix3) arbitrary operations + the flush from every fixture'
+    ctx.cov['bounds'] = 'every flush/commit/end at the end of every history of 2 (thorough: 3 for the plain one-to-many and many-to-many models from the populated fixture) arbitrary operations + the flush from every fixture'
     ctx.assume('single session: no concurrent deletions, so a FOREIGN KEY failure can only come from statement order; SQLite enforces foreign keys immediately')
     return dict(states=agg['states'], transitions=agg['transitions'], traces_validated_against_impl=agg['executions'])
 
